@@ -32,13 +32,16 @@ def material_case(draw):
     n = draw(st.integers(1, 6))
     forms = draw(st.lists(st.sampled_from(POOL), min_size=n, max_size=n, unique=True))
     comps = [[f, draw(prop)] for f in forms]
-    op = draw(st.sampled_from([None, None, "add_existing", "add_new", "rmul", "sum"]))
+    op = draw(st.sampled_from([None, None, "add_existing", "add_new", "rmul", "sum", "sum_substance"]))
     extra = None
     if op == "add_existing":
         extra = [draw(st.sampled_from(forms)), draw(prop)]
     elif op == "add_new":
         cand = [f for f in POOL if f not in forms]
         extra = [draw(st.sampled_from(cand)), draw(prop)]
+    elif op == "sum_substance":
+        # Material + Substance(formula, proportion=p): one more component with amount p
+        extra = [draw(st.sampled_from(POOL)), draw(prop)]
     elif op == "rmul":
         extra = draw(st.sampled_from([2, 3, 0.5, 10, 7]))
     elif op == "sum":
@@ -58,7 +61,9 @@ def material_case(draw):
 @st.composite
 def substance_case(draw):
     its = draw(F10.items(draw(st.integers(0, 2))))
-    return {"kind": "substance", "items": [[i, j] for i, j in its], "natural": draw(st.booleans())}
+    # a substance may carry a proportion of its own (its share in a mixture): its element fractions do not depend on it
+    return {"kind": "substance", "items": [[i, j] for i, j in its], "natural": draw(st.booleans()),
+            "proportion": draw(st.sampled_from([None, None, 3, 0.5, 2.0]))}
 
 
 def strategies(tier):
@@ -193,6 +198,11 @@ def check_material(case, v):
             mat.add(extra[0], extra[1])
             final[extra[0]] = final.get(extra[0], 0) + extra[1]
             text += f".add({extra[0]!r},{extra[1]})"
+        elif op == "sum_substance":
+            from scinumtools.materials import Substance
+            mat = mat + Substance(extra[0], natural=nat, proportion=extra[1])
+            final[extra[0]] = final.get(extra[0], 0) + extra[1]
+            text += f" + Substance({extra[0]!r}, proportion={extra[1]})"
         elif op == "rmul":
             mat = extra * mat
             for f in final:
@@ -265,7 +275,8 @@ def check_substance(case, v):
     nat = case["natural"]
     counter = F10.expand(case["items"])
     try:
-        sub = Substance(text, natural=nat)
+        prop_ = case.get("proportion")
+        sub = Substance(text, natural=nat) if prop_ is None else Substance(text, natural=nat, proportion=prop_)
         tab = sub.data_composite(quantity=False)
         comp = sub.data_components(quantity=False)
     except Exception as e:
@@ -284,7 +295,7 @@ def check_substance(case, v):
     ex, eX = fractions(n, m, "number")
     x = [float(tab[k].x) for k in keys]
     X = [float(tab[k].X) for k in keys]
-    t = f"Substance({text!r}, natural={nat})"
+    t = f"Substance({text!r}, natural={nat}" + (f", proportion={case['proportion']})" if case.get("proportion") else ")")
     if not (_cmp(v, t, x, ex, "x") and _cmp(v, t, X, eX, "X")):
         return
     if not (close(float(tab["sum"].x), 100.0, 1e-9) and close(float(tab["sum"].X), 100.0, 1e-9)):
